@@ -552,6 +552,14 @@ func (c *Chain) bindingMsg(e *Event) sdk.Msg {
 	} else {
 		sig = "tendermint/PubKeySecp256k1.AAAA.AAAA"
 	}
+	if e.SigMode == "short" {
+		// a truncated proof: the handler's own parsing must fail it (a panic inside a transaction is a failed transaction)
+		if isEthAcc(accName) {
+			sig = "0x"
+		} else {
+			sig = "tendermint/PubKeySecp256k1"
+		}
+	}
 	accDid := "did:key:acc-" + accName + "-" + e.Did
 	c.bind("ad_"+accName+"_"+e.Did, accDid)
 	return &didtypes.MsgBinding{
